@@ -376,6 +376,11 @@ def primitives(ctx: Context, rule: str, classes: T.Iterable[str] | None = None) 
                 st, _ = _enclosing_stmt_value_call(call)
                 tested = isinstance(parent(call), ast.UnaryOp) and isinstance(parent(parent(call)), ast.If)
                 raises = tested and any(isinstance(x, ast.Raise) and "PoolTimeout" in ast.unparse(x) for x in parent(parent(call)).body)
+                if not tested and isinstance(st, ast.Assign) and len(st.targets) == 1 and isinstance(st.targets[0], ast.Name):
+                    # the result kept in a local first: `ok = self._event.wait(..)` / `if not ok: raise PoolTimeout()`
+                    v = st.targets[0].id
+                    ifs = [x for x in own_nodes(f.node) if isinstance(x, ast.If) and norm(x.test) in (f"not{v}", f"{v}isFalse", f"{v}==False") and x.lineno > st.lineno]
+                    raises = len(ifs) == 1 and any(isinstance(x, ast.Raise) and "PoolTimeout" in ast.unparse(x) for x in ifs[0].body)
                 ok = tmo and raises
                 detail = f"Event.wait: timeout passed={tmo}, unsuccessful wait raises PoolTimeout={raises}"
             rep.ob(rule, fkey("sync", f, f"{cn}.{m}->{dm}"), ok, where(f, calls[0] if calls else None),
